@@ -49,6 +49,12 @@ CUTTABLE = {
     ("eko.interpolation", "InterpolatorDispatcher.__init__", 0),
     ("eko.interpolation", "InterpolatorDispatcher.__init__", 1),
 }
+# Loops that are found by what they iterate over rather than by their position: the outermost for-loop of the function whose iterable mentions the named
+# PARAMETER of the function (part of the function's interface, unlike the position of the loop or the names of its locals).  Key: (module, function, "iter:<parameter>").
+ANCHORED = {
+    ("eko.kernels.singlet_qed", "eko_iterate"): "ev_op_iterations",
+    ("eko.kernels.non_singlet_qed", "exact"): "ev_op_iterations",
+}
 ACTIVE_CUTS: dict = {}
 
 
@@ -71,8 +77,12 @@ def _vclen(x):
     return f() if f is not None else len(x)
 
 
-def _vc_loop(key):
-    return ACTIVE_CUTS.get(key)
+def _vc_loop(keys):
+    for key in keys:
+        sp = ACTIVE_CUTS.get(key)
+        if sp is not None:
+            return sp
+    return None
 
 
 class LoopSpec:
@@ -87,6 +97,9 @@ class LoopSpec:
     def __init__(self, fresh, target, entry, preserved, prefix=None):
         self.fresh, self.target, self._entry, self._preserved, self._prefix = fresh, target, entry, preserved, prefix
         self.entered = 0
+        self.carried = ()        # names assigned in the loop (set by the transformed code before the loop is entered)
+        self.selfref = ()        # those of them that some statement of the body updates from their own previous value
+        self.live_in = ()        # the carried names that are bound before the loop
 
     def prefix(self, lazy_iter, env):
         """concrete iterations peeled off before the cut (default: none); lazy_iter() evaluates the loop's iterable"""
@@ -96,7 +109,18 @@ class LoopSpec:
 
     def entry(self, env, iterable):
         self.entered += 1
+        self.live_in = tuple(n for n in self.carried if n in env)
         self._entry(dict(env), iterable)
+
+    def accumulator(self):
+        """the name of THE accumulator of the loop, whatever the code calls it: the only name that is bound before the loop and updated in the body from its own
+        previous value (e = step @ e, res *= step)"""
+        from .terms import Unsupported
+
+        acc = [n for n in self.live_in if n in self.selfref]
+        if len(acc) != 1:
+            raise Unsupported(f"loop contract written for one accumulator, the loop has {acc}")
+        return acc[0]
 
     def havoc(self, names, phase="iter"):
         vals = self.fresh(phase)
@@ -128,6 +152,8 @@ class _Tr(ast.NodeTransformer):
         self.modname = modname
         self.qual = []
         self.loop_ord = []
+        self.fn_args = []
+        self.loop_depth = []
         self.cuts = []
 
     def visit_ClassDef(self, node):
@@ -140,7 +166,11 @@ class _Tr(ast.NodeTransformer):
         self.n_fun += 1
         self.qual.append(node.name)
         self.loop_ord.append(0)
+        self.fn_args.append({a.arg for a in node.args.args + node.args.kwonlyargs})
+        self.loop_depth.append(0)
         self.generic_visit(node)
+        self.loop_depth.pop()
+        self.fn_args.pop()
         self.loop_ord.pop()
         self.qual.pop()
         return node
@@ -152,8 +182,15 @@ class _Tr(ast.NodeTransformer):
         ordinal = self.loop_ord[-1]
         self.loop_ord[-1] += 1
         key = (self.modname, ".".join(self.qual), ordinal)
+        depth = self.loop_depth[-1]
+        self.loop_depth[-1] += 1
         self.generic_visit(node)
-        if key not in CUTTABLE:
+        self.loop_depth[-1] -= 1
+        keys = [key] if key in CUTTABLE else []
+        anchor = ANCHORED.get((self.modname, ".".join(self.qual)))
+        if anchor and depth == 0 and anchor in self.fn_args[-1] and any(isinstance(n, ast.Name) and n.id == anchor for n in ast.walk(node.iter)):
+            keys.append((self.modname, ".".join(self.qual), "iter:" + anchor))
+        if not keys:
             return node
         for n in ast.walk(node):
             if isinstance(n, (ast.Break, ast.Continue, ast.Return)) or node.orelse:
@@ -166,9 +203,22 @@ class _Tr(ast.NodeTransformer):
         carried = [n for n in names if n not in tgt_names]
         self.cuts.append(key)
         L = "_vc_L%d" % len(self.cuts)
-        keyexpr = ast.Tuple([ast.Constant(k) for k in key], ast.Load())
+        keyexpr = ast.Tuple([ast.Tuple([ast.Constant(k) for k in kk], ast.Load()) for kk in keys], ast.Load())
         import copy
 
+        # names updated from their own previous value somewhere in the body (x = f(x), x op= ...): the candidates for accumulators
+        selfref = []
+        for n in ast.walk(node):
+            if isinstance(n, ast.AugAssign) and isinstance(n.target, ast.Name):
+                tg, val = [n.target.id], None
+            elif isinstance(n, ast.Assign):
+                tg, val = [t.id for t in n.targets if isinstance(t, ast.Name)], n.value
+            else:
+                continue
+            for t in tg:
+                if t in carried and t not in selfref and (val is None or any(isinstance(m, ast.Name) and m.id == t for m in ast.walk(val))):
+                    selfref.append(t)
+        selfref_names = f"({', '.join(repr(c) for c in selfref)},)" if selfref else "()"
         carried_tuple = f"({', '.join(carried)},)" if carried else None
         carried_names = f"({', '.join(repr(c) for c in carried)},)" if carried else "()"
         src = f"""
@@ -176,6 +226,8 @@ class _Tr(ast.NodeTransformer):
 if {L} is None:
     pass
 else:
+    {L}.carried = {carried_names}
+    {L}.selfref = {selfref_names}
     for _vc_T in {L}.prefix(lambda: None, locals()):
         pass
     {L}.entry(locals(), None)
@@ -189,13 +241,13 @@ else:
         assign, iff = tmpl
         assign.value.args = [keyexpr]
         iff.body = [node]
-        pre_for, entry_call, havoc_assign, tgt_assign0, _pass, preserved_call, exit_assign = iff.orelse
+        carried_set, selfref_set, pre_for, entry_call, havoc_assign, tgt_assign0, _pass, preserved_call, exit_assign = iff.orelse
         pre_for.iter.args[0].body = copy.deepcopy(node.iter)          # lambda: ITER (lazy)
         pre_for.target = copy.deepcopy(node.target)
         pre_for.body = [copy.deepcopy(b) for b in node.body]
         tgt_assign = ast.Assign([copy.deepcopy(node.target)], tgt_assign0.value)
         body = [copy.deepcopy(b) for b in node.body]
-        iff.orelse = [pre_for, entry_call, havoc_assign, tgt_assign] + body + [preserved_call, exit_assign]
+        iff.orelse = [carried_set, selfref_set, pre_for, entry_call, havoc_assign, tgt_assign] + body + [preserved_call, exit_assign]
         return [ast.copy_location(assign, node), ast.copy_location(iff, node)]
 
     def visit_Call(self, node):
